@@ -14,7 +14,10 @@ def run(rep, tier, seed):
     rep.cov["rule"] = ("corpus (the repaired defects, chains into the exit, entry = loop head) + seeded random CFGs with 1-12 blocks: chains, "
                        "diamonds, loops, self loops, 2-cycles, blocks unreachable from the entry or not reaching the exit, `unreachable` "
                        "statements, function outputs; queries dce / simp / lower (random subset of the assertions) / pipe = lower;dce;simplify. "
-                       "Non-trivial: the transformation changed the CFG (statement, assertion or block count); distinct by input line")
+                       "Non-trivial: the transformation changed the CFG (statement, assertion or block count); distinct by input line. "
+                       "Sub-stream transforms-bool (harness + oracle only): the same CFG shapes with blocks that mix numerical and boolean "
+                       "statements, boolean assertions that hold by construction (guarded groups, a guard boolean assumed in the entry block) "
+                       "and boolean assertions that may fail, a random subset lowered, boolean / integer function outputs")
     rep.assumptions = [
         "models = hand-written Coq mirrors of dce.hpp, cfg::simplify (merge_blocks_rec, remove, remove_unreachable_blocks, remove_useless_blocks) and lower_safe_assertions.hpp, tied to the sources by differential testing only",
         "DCE theorem is conditional on the liveness model returning a validated solution (C18) and, for the converse direction, on the property's proviso (no removed statement can fail)",
@@ -27,6 +30,84 @@ def run(rep, tier, seed):
     lines = transforms.gen(seed, tier, "C17")
     vlib.run_stream(rep, "transforms", "transforms", "transforms", lines, oracle=transforms.oracle,
                     nontrivial=transforms.nontrivial, key=transforms.key)
+    bool_stream(rep, tier, seed)
+
+
+def bool_stream(rep, tier, seed):
+    """Sub-stream transforms-bool (oracle only: the Coq model has no boolean statements).  Programs that mix numerical
+    and boolean statements (bool_assign_cst / bool_assign_var / bool_binary_op / bool_select / bool_assume /
+    bool_assert, havoc and zext of booleans) go through dce / simplify / lower_safe_assertions / pipe in the harness;
+    the printed CFG is judged by the leader / follower oracle of gen/transforms.py (booleans = extra 0/1 entries of
+    the store)."""
+    import os, re, random
+    name = "transforms-bool"
+    lines = transforms.gen_bool(seed, tier)
+    st = {"cases": len(lines), "oracle_violations": 0, "aborts": 0, "unanswered": 0, "distinct_nontrivial": 0}
+    rep.cov["streams"][name] = st
+    rep.assumptions.append(
+        "transforms-bool: no Coq model (boolean statements are outside coq/Ana); the real transformations are judged by the "
+        "sampled leader/follower oracle only (40 executions per program in each direction); reference statements / ref_assert "
+        "and boolean assignments of reference constraints are not generated")
+    hexe, err = vlib.build_harness("transforms")
+    if err:
+        rep.violation(name + "-build", "stream %s: %s" % (name, err), False)
+        return
+    d = os.path.join(vlib.VERIF, "out", rep.prop)
+    os.makedirs(d, exist_ok=True)
+    cf = os.path.join(d, name + ".cases")
+    with open(cf, "w") as f:
+        f.write("\n".join(lines) + "\n")
+    impl = vlib.run_harness_resilient(hexe, (), cf, len(lines), 900)
+    known = [k for k in vlib.load_known().get("findings", [])
+             if k.get("property") == rep.prop and k.get("stream", name) == name]
+    rng = random.Random(seed * 7919 + 17)
+    transforms.STATS = stats = {}
+    reported, nontriv, hist = set(), set(), {}
+    for i, line in enumerate(lines):
+        a = impl.get(i, "MISSING")
+        k = transforms.key(line)
+        hist[k] = hist.get(k, 0) + 1
+        wit, has_input = None, True
+        if a == "ABORT":
+            st["aborts"] += 1
+        if a in ("MISSING", "TIMEOUT") or a.startswith("HARNESS-ERROR"):
+            st["unanswered"] += 1
+            wit, has_input = "the harness gave no answer (%s) on a well-formed program" % a, a == "TIMEOUT"
+        else:
+            try:
+                wit = transforms.oracle(line, a, rng)
+                if wit is None and a != "ABORT" and transforms.parse_cfg_answer(a, 0, []) is None:
+                    wit, has_input = "the printed CFG cannot be parsed back", False
+            except Exception as e:       # e.g. a statement the harness cannot print ("?")
+                wit, has_input = "the printed CFG cannot be interpreted (%s: %s)" % (type(e).__name__, e), False
+        if wit is None:
+            if transforms.nontrivial_bool(line, a):
+                nontriv.add(line)
+            continue
+        st["oracle_violations"] += 1
+        kn = [kk for kk in known if re.search(kk["line_regex"], line) and re.search(kk.get("witness_regex", ""), wit)]
+        if kn:
+            rep.known_finding("%s (%s)" % (kn[0]["what"], line))
+            continue
+        tag = "%s-%s" % (name, k)
+        if tag in reported:
+            continue
+        reported.add(tag)
+        rep.violation(tag, ("FAILING INPUT (property oracle on the implementation's answer): " if has_input else "") + wit +
+                      "\nstream=%s case=%d\ninput: %s\nimplementation: %s\nmodel: (none: oracle-only stream)\n"
+                      % (name, i, line, a), has_input)
+    transforms.STATS = None
+    st["distinct_nontrivial"] = len(nontriv)
+    st["histogram"] = hist
+    st["sampled_executions"] = stats
+    st["lowered_bool_asserts"] = sum(len(re.findall(r"\bbassert\b", l)) - len(re.findall(r"\bbassert\b", impl.get(i, "")))
+                                     for i, l in enumerate(lines) if re.search(r"q=(lower|pipe)\b", l))
+    rep.cov["evaluations"] += len(lines)
+    rep.cov["distinct_nontrivial"] += len(nontriv)
+    if lines:
+        for i in sorted(rng.sample(range(len(lines)), min(2, len(lines)))):
+            rep.cov["samples"].append({"stream": name, "input": lines[i][:600], "implementation": (impl.get(i) or "")[:600],
+                                       "model": "(none: oracle-only stream)"})
 
 
 def replay(path):
